@@ -10,6 +10,7 @@ import (
 	"math/big"
 	"sort"
 	"strings"
+	"sync"
 )
 
 type Kind uint8
@@ -115,6 +116,7 @@ type Term struct {
 }
 
 type TermTable struct {
+	mu    sync.Mutex // intern is called from the solver-race goroutines (parseModel) too
 	byKey map[string]*Term
 	next  int
 	vars  map[string]*Term
@@ -139,6 +141,8 @@ func (tt *TermTable) intern(t *Term) *Term {
 		fmt.Fprintf(&sb, "|%d", a.ID)
 	}
 	k := sb.String()
+	tt.mu.Lock()
+	defer tt.mu.Unlock()
 	if e, ok := tt.byKey[k]; ok {
 		return e
 	}
